@@ -181,6 +181,8 @@ def _run(chk, wd, proved):
     hostile = [(b'RESULT ' + b'9' * 30 + b'\n', b'OK'),                (b'RESULT ' + b'1' * 4301 + b'\n', b'READY\n'), (b'RESULT ' + b'0' * 40 + b'2\n', b'OK', b'READY\n'),
                (b'\x00' * 50,), (b'READY\n' * 5,), (b'RESULT 2\nOK' * 3,),
                (b'RESULT 00\n',), (b'RESULT 000000\n',),
+               # second result handler raising SystemExit / KeyboardInterrupt / GeneratorExit (bodies !S !K !G): as any other error
+               (b'RESULT 2\n', b'!S', b'READY\n'), (b'RESULT 2\n', b'!K', b'READY\n'), (b'RESULT 2\n!G', b'READY\n'), (b'RESULT 3\n!SxRESULT 2\nOK',),
                # headers that differ from a valid one ONLY in the first 7 bytes, then valid digits and a valid body
                (b'result 2\n', b'OK', b'READY\n'), (b'RESULT:2\n', b'OK'), (b'XXXXXXX2\n', b'OK', b'READY\n'), (b'RESULT\t2\n', b'OK'),
                (b'RESULt 2\n', b'OK'), (b'\x00\x01\x02\x03\x04\x05\x062\n', b'OK'), (b'READY\n 2\n', b'OK'), (b'RESULT_2\nOK',),
@@ -200,7 +202,7 @@ def _run(chk, wd, proved):
         for start in STARTS:
             if len(toks) >= 3 and not is_hostile and quick and (si + STARTS.index(start)) % 2:
                 continue
-            variants = [(hk, False) for hk in ((0, 1) if b'!X' in toks else (0,))]
+            variants = [(hk, False) for hk in ((0, 1) if any(t.startswith(b'!') or b'\n!' in t for t in toks) else (0,))]
             if b'\x1b' in stream or is_hostile or (si + STARTS.index(start)) % 9 == 0:
                 variants.append((0, True))       # the same bytes with options.strip_ansi = True
             for hk, strip in variants:
